@@ -113,6 +113,12 @@ def lot_oracle(c):
         fails.append(Failure("lots", f"Tract({text!r}).lots = {t.lots}, expected {exp}", text=text, got=list(t.lots), want=exp))
     elif list(t.ilots) != nums:
         fails.append(Failure("ilots", f"Tract({text!r}).ilots = {t.ilots}, expected {nums}", text=text))
+    # the integer lot numbers mirror the lots also when they were looked at before the parse that found the lots
+    late = Tract(text)
+    before = list(late.ilots)
+    late.parse()
+    if list(late.ilots) != nums or before != []:
+        fails.append(Failure("ilots_after_late_parse", f"Tract({text!r}): ilots {before} before and {late.ilots} after parse(), expected [] and {nums}", text=text))
     if t.qqs:
         fails.append(Failure("lots_spurious_qq", f"Tract({text!r}).qqs = {t.qqs}, expected none", text=text))
     want_flag = L.has_descending(items)
